@@ -20,15 +20,17 @@ pub struct Pki {
     pub wrongname_ip: (Vec<u8>, Vec<u8>),   // trusted; the NAME localhost and a foreign address - wrong for an address literal
     pub wrongname_ca2: (Vec<u8>, Vec<u8>),  // a certificate for other.example issued by a second trusted CA whose own name is `localhost`
     pub untrusted: (Vec<u8>, Vec<u8>), // self-signed, right names
+    pub good_far: (Vec<u8>, Vec<u8>),  // trusted, right names, valid for thirty years
+    pub good_rsa: (Vec<u8>, Vec<u8>),  // trusted, right names, RSA-2048 key
     pub weak: (Vec<u8>, Vec<u8>),      // trusted, right names, 1024-bit RSA key: parses as an identity, but no acceptor can be built from it
 }
 
 fn make_cert(cn: &str, sans_dns: &[&str], sans_ip: &[&str], issuer: Option<(&openssl::x509::X509, &openssl::pkey::PKey<openssl::pkey::Private>)>, is_ca: bool) -> (openssl::x509::X509, openssl::pkey::PKey<openssl::pkey::Private>) {
-    make_cert_with(cn, sans_dns, sans_ip, issuer, is_ca, None)
+    make_cert_with(cn, sans_dns, sans_ip, issuer, is_ca, None, 365)
 }
 
 /// `rsa_bits`: an RSA key of that size instead of the P-256 key (a 1024-bit key is one the TLS library refuses to serve)
-fn make_cert_with(cn: &str, sans_dns: &[&str], sans_ip: &[&str], issuer: Option<(&openssl::x509::X509, &openssl::pkey::PKey<openssl::pkey::Private>)>, is_ca: bool, rsa_bits: Option<u32>) -> (openssl::x509::X509, openssl::pkey::PKey<openssl::pkey::Private>) {
+fn make_cert_with(cn: &str, sans_dns: &[&str], sans_ip: &[&str], issuer: Option<(&openssl::x509::X509, &openssl::pkey::PKey<openssl::pkey::Private>)>, is_ca: bool, rsa_bits: Option<u32>, days: u32) -> (openssl::x509::X509, openssl::pkey::PKey<openssl::pkey::Private>) {
     use openssl::asn1::Asn1Time;
     use openssl::bn::{BigNum, MsbOption};
     use openssl::ec::{EcGroup, EcKey};
@@ -53,7 +55,7 @@ fn make_cert_with(cn: &str, sans_dns: &[&str], sans_ip: &[&str], issuer: Option<
     b.set_subject_name(&name).unwrap();
     b.set_pubkey(&key).unwrap();
     b.set_not_before(&Asn1Time::days_from_now(0).unwrap()).unwrap();
-    b.set_not_after(&Asn1Time::days_from_now(365).unwrap()).unwrap();
+    b.set_not_after(&Asn1Time::days_from_now(days).unwrap()).unwrap();
     match issuer {
         Some((c, _)) => b.set_issuer_name(c.subject_name()).unwrap(),
         None => b.set_issuer_name(&name).unwrap(),
@@ -91,8 +93,11 @@ pub fn make_pki() -> Pki {
     let (w2, w2k) = make_cert("other.example", &["other.example"], &["192.0.2.7"], Some((&ca2, &ca2k)), false);
     let (u, uk) = make_cert("localhost", &["localhost"], &["127.0.0.1", "::1"], None, false);
     let pem = |c: &openssl::x509::X509, k: &openssl::pkey::PKey<openssl::pkey::Private>| (c.to_pem().unwrap(), k.private_key_to_pem_pkcs8().unwrap());
-    let (k, kk) = make_cert_with("localhost", &["localhost"], &["127.0.0.1", "::1"], Some((&ca, &cak)), false, Some(1024));
-    Pki { ca_pem: [ca.to_pem().unwrap(), ca2.to_pem().unwrap()].concat(), wrongname_ca2: pem(&w2, &w2k), good: pem(&g, &gk), wrongname: pem(&w, &wk), wrongname_host: pem(&wh, &whk), wrongname_ip: pem(&wi, &wik), untrusted: pem(&u, &uk), weak: pem(&k, &kk) }
+    let (k, kk) = make_cert_with("localhost", &["localhost"], &["127.0.0.1", "::1"], Some((&ca, &cak)), false, Some(1024), 365);
+    // the good certificate in other clothes: valid into the 2050s (RFC 5280 spells such a date as GeneralizedTime), an RSA key
+    let (gf, gfk) = make_cert_with("localhost", &["localhost"], &["127.0.0.1", "::1"], Some((&ca, &cak)), false, None, 11000);
+    let (gr, grk) = make_cert_with("localhost", &["localhost"], &["127.0.0.1", "::1"], Some((&ca, &cak)), false, Some(2048), 365);
+    Pki { ca_pem: [ca.to_pem().unwrap(), ca2.to_pem().unwrap()].concat(), wrongname_ca2: pem(&w2, &w2k), good: pem(&g, &gk), wrongname: pem(&w, &wk), wrongname_host: pem(&wh, &whk), wrongname_ip: pem(&wi, &wik), untrusted: pem(&u, &uk), weak: pem(&k, &kk), good_far: pem(&gf, &gfk), good_rsa: pem(&gr, &grk) }
 }
 
 fn identity(p: &(Vec<u8>, Vec<u8>)) -> native_tls::Identity {
@@ -510,7 +515,7 @@ async fn relay_on(target: std::net::SocketAddr, kind: &str, port: u16) -> Option
         // (a few seconds at most: if somebody else on this machine holds the port the cell is skipped, not failed)
         for _ in 0..12 {
             if let Ok(l) = TcpListener::bind(format!("{}:{}", host, port)).await {
-                return relay_with(l, target).await;
+                return relay_with(l, vec![target]).await;
             }
             tokio::time::sleep(Duration::from_millis(500)).await;
         }
@@ -530,16 +535,20 @@ async fn relay_any(target: std::net::SocketAddr, kind: &str) -> Option<(std::net
     })
     .await
     .ok()?;
-    relay_with(l, target).await
+    relay_with(l, vec![target]).await
 }
 
-async fn relay_with(l: TcpListener, target: std::net::SocketAddr) -> Option<(std::net::SocketAddr, Arc<Mutex<Vec<u8>>>)> {
+/// the k-th accepted connection is forwarded to the k-th target (the last one for all later connections)
+async fn relay_with(l: TcpListener, targets: Vec<std::net::SocketAddr>) -> Option<(std::net::SocketAddr, Arc<Mutex<Vec<u8>>>)> {
     let addr = l.local_addr().ok()?;
     let cap: Arc<Mutex<Vec<u8>>> = Default::default();
     let cap2 = cap.clone();
     tokio::spawn(async move {
+        let mut nth = 0usize;
         while let Ok((mut c, _)) = l.accept().await {
             let cap = cap2.clone();
+            let target = targets[nth.min(targets.len() - 1)];
+            nth += 1;
             tokio::spawn(async move {
                 let mut s = match TcpStream::connect(target).await {
                     Ok(s) => s,
@@ -615,7 +624,11 @@ pub async fn tls_cell(pki: Arc<Pki>, dict: Arc<Dictionary>, spec: Vec<String>) -
             },
             "untrusted" => &pki.untrusted,
             "weak" => &pki.weak,
-            _ => &pki.good,
+            _ => match kv.get("cv").map(|x| x.as_str()) {
+                Some("1") => &pki.good_far,
+                Some("2") => &pki.good_rsa,
+                _ => &pki.good,
+            },
         });
         if cert == "weak" && native_tls::TlsAcceptor::new(idt.clone()).is_ok() {
             // this platform's TLS library serves even this key: the cell says nothing here
@@ -637,6 +650,16 @@ pub async fn tls_cell(pki: Arc<Pki>, dict: Arc<Dictionary>, spec: Vec<String>) -
             "ip" => format!("127.0.0.1:{}", raddr.port()),
             "ip6" => format!("[::1]:{}", raddr.port()),
             _ => format!("localhost:{}", raddr.port()),
+        };
+        // `spell=<k>`: the same peer written as an RFC 6733 DiameterURI. The library takes `host:port`; whatever it makes of
+        // another spelling, how the connection is protected is decided by the configuration
+        let address = match kv.get("spell").map(|x| x.as_str()) {
+            Some("1") => format!("aaa://{}", address),
+            Some("2") => format!("aaas://{}", address),
+            Some("3") => format!("aaa://{};transport=tcp;protocol=diameter", address),
+            Some("4") => format!("AAA://{}", address),
+            Some("5") => format!("aaas://{};transport=tcp", address),
+            _ => address,
         };
         let marker = format!("MARKER-c13-{}-{}", cell_id, raddr.port());
         // `burst=<n>`: first, several times over, n peers connect at the same moment (so that they wait in the listener's
@@ -723,6 +746,67 @@ pub async fn tls_cell(pki: Arc<Pki>, dict: Arc<Dictionary>, spec: Vec<String>) -
         let _ = proceeded;
         format!("{} clear={} answered={} served={}", class, clear as u8, answered as u8, served as u8)
     }
+}
+
+fn ident_of<'a>(pki: &'a Pki, cert: &str) -> &'a (Vec<u8>, Vec<u8>) {
+    match cert {
+        "wrongname" => &pki.wrongname,
+        "untrusted" => &pki.untrusted,
+        "good_far" => &pki.good_far,
+        "good_rsa" => &pki.good_rsa,
+        _ => &pki.good,
+    }
+}
+
+/// `tlsre verify=<0|1> c1=<cert> c2=<cert> id=<n>`: ONE client object (TLS on) connects twice to the same address; behind
+/// the address the first connection meets a server presenting `c1`, the second one a server presenting `c2` (the server
+/// was restarted with another certificate). Each connection is judged by the configuration and the certificate it meets,
+/// not by what the object saw before. answer: `<class> <class>`
+pub async fn tls_reconnect(pki: Arc<Pki>, dict: Arc<Dictionary>, spec: Vec<String>) -> String {
+    let mut kv = std::collections::HashMap::new();
+    for t in spec.iter() {
+        if let Some((k, v)) = t.split_once('=') {
+            kv.insert(k.to_string(), v.to_string());
+        }
+    }
+    let verify = kv.get("verify").map(|x| x == "1").unwrap_or(false);
+    let c1 = kv.get("c1").cloned().unwrap_or_else(|| "good".into());
+    let c2 = kv.get("c2").cloned().unwrap_or_else(|| "good".into());
+    let cell_id = kv.get("id").cloned().unwrap_or_default();
+    let seen: Arc<Mutex<Vec<String>>> = Default::default();
+    let s1 = start_server(Some(identity(ident_of(&pki, &c1))), dict.clone(), seen.clone()).await;
+    let s2 = start_server(Some(identity(ident_of(&pki, &c2))), dict.clone(), seen.clone()).await;
+    let l = match TcpListener::bind("127.0.0.1:0").await {
+        Ok(l) => l,
+        Err(_) => return "skipped no-listener".to_string(),
+    };
+    let (raddr, cap) = match relay_with(l, vec![s1, s2]).await {
+        Some(x) => x,
+        None => return "skipped no-relay".to_string(),
+    };
+    let mut client = DiameterClient::new(&format!("127.0.0.1:{}", raddr.port()), DiameterClientConfig { use_tls: true, verify_cert: verify });
+    let wait = Duration::from_millis(4000);
+    let mut out = vec![];
+    for round in 0..2u32 {
+        let marker = format!("MARKER-c13re-{}-{}-{}", cell_id, raddr.port(), round);
+        let mut answered = false;
+        if let Ok(Ok(mut handler)) = tokio::time::timeout(wait, client.connect()).await {
+            let d2 = dict.clone();
+            tokio::spawn(async move {
+                DiameterClient::handle(&mut handler, d2).await;
+            });
+            if let Ok(Ok(fut)) = tokio::time::timeout(wait, client.send_message(request_cmd(&dict, 272, 50 + round, 60 + round, &marker))).await {
+                if let Ok(Ok(ans)) = tokio::time::timeout(wait, fut).await {
+                    let m = ans.get_avp(263).and_then(|a| a.get_utf8string().map(|s| s.value().to_string())).unwrap_or_default();
+                    answered = ans.get_hop_by_hop_id() == 50 + round && m == marker;
+                }
+            }
+        }
+        tokio::time::sleep(Duration::from_millis(30)).await;
+        let clear = contains(&cap.lock().unwrap(), marker.as_bytes());
+        out.push(if clear { "plain" } else if answered { "session" } else { "refused" });
+    }
+    out.join(" ")
 }
 
 /// `lsnpipe tls=<0|1> n=<k> kib=<size>`: one client sends k requests back to back, each answered with `kib` KiB, and behind
@@ -1112,6 +1196,7 @@ pub fn run_batch(rt: &tokio::runtime::Runtime, pki: Arc<Pki>, dict: Arc<Dictiona
                     "lsn" => listener_scenario(pki, dict, toks[1..].to_vec()).await,
                     "lsnpipe" => listener_pipeline(pki, dict, toks[1..].to_vec()).await,
                     "tls" => tls_cell(pki, dict, toks[1..].to_vec()).await,
+                    "tlsre" => tls_reconnect(pki, dict, toks[1..].to_vec()).await,
                     "tlsq" => tls_sequence_in_child(toks[1..].join(" ")).await,
                     "tlsrude" => tls_rude(dict, toks[1..].to_vec()).await,
                     "ctcp" => client_tcp(dict, toks[1..].to_vec()).await,
